@@ -84,6 +84,7 @@ class Contract:
         self.returns: Optional[Clause] = None
         self.decreases: Optional[Clause] = None
         self.result_is: List[Clause] = []
+        self.hints: List[Clause] = []
         default_tag = props[0] if props else 'aux'
         for name, fn in vars(cls).items():
             if not inspect.isfunction(fn):
@@ -99,6 +100,8 @@ class Contract:
                 self.returns = Clause(name, fn, tag, 'returns')
             elif name == 'decreases':
                 self.decreases = Clause(name, fn, tag, 'decreases')
+            elif name.startswith('hint'):
+                self.hints.append(Clause(name, fn, 'aux', 'hint'))
             elif name.startswith('result_is_'):
                 self.result_is.append(Clause(name, fn, tag, 'result_is'))
 
@@ -145,7 +148,9 @@ def spec(fn=None, *, opaque=False):
 
 
 class Invariant:
-    def __init__(self, qualname, loop, fn, types, tagv):
+    def __init__(self, qualname, loop, fn, types, tagv, hint=None):
+        self.hint = hint
+        self.hint_node = _fundef_of(hint) if hint is not None else None
         self.qualname = qualname
         self.loop = loop
         self.fn = fn
@@ -154,9 +159,11 @@ class Invariant:
         self.tag = tagv
 
 
-def invariant(qualname, loop=0, types=None, tag='aux'):
+def invariant(qualname, loop=0, types=None, tag='aux', hint=None):
+    """hint: a function over the locals after the loop body (and their values `old_<name>` at the
+    start of the iteration) that calls instances of proved lemmas"""
     def deco(fn):
-        INVARIANTS[(qualname, loop)] = Invariant(qualname, loop, fn, types, tag)
+        INVARIANTS[(qualname, loop)] = Invariant(qualname, loop, fn, types, tag, hint)
         return fn
     return deco
 
@@ -167,7 +174,9 @@ class Lemma:
     parameter of node or Seq type; the prover generates one obligation per constructor with the
     induction hypothesis for every direct child, never the lemma itself."""
 
-    def __init__(self, fn, induction_on, props, uses):
+    def __init__(self, fn, induction_on, props, uses, hint=None):
+        self.hint = hint
+        self.hint_node = _fundef_of(hint) if hint is not None else None
         self.fn = fn
         self.name = fn.__name__
         self.node = _fundef_of(fn)
@@ -177,9 +186,11 @@ class Lemma:
         self.uses = list(uses)
 
 
-def lemma(induction_on=None, props=(), uses=()):
+def lemma(induction_on=None, props=(), uses=(), hint=None):
+    """hint: function of the same parameters calling instances of earlier lemmas; evaluated for the
+    goal of each case only (it may branch on the case), never inside induction hypotheses"""
     def deco(fn):
-        lm = Lemma(fn, induction_on, props, uses)
+        lm = Lemma(fn, induction_on, props, uses, hint)
         lm.index = len(LEMMAS)
         LEMMAS[fn.__name__] = lm
         fn._lemma = lm
@@ -197,6 +208,12 @@ def _globs(self):
 
 for _c in (Clause, SpecFn, Invariant, Lemma):
     _c.globs = property(_globs)
+
+
+def unfold(fn, *args):
+    """hint: one instance of the definition of spec function fn at args (valid by definition).
+    Natively a no-op; the prover assumes  fn(args) == body[args]."""
+    return True
 
 
 def resolve_qualname(qualname: str):
